@@ -21,6 +21,7 @@ PROPERTY = "C04"
 FUNCTIONS = ["Command.handle/_do_handle", "ConsoleApplication.run/exception_to_exit_code/resolve_command", "ExceptionTrace.render (simple and full)",
              "PreHandleEvent", "CallbackHandler.handle", "DefaultApplicationConfig.create_io"]
 PART = {}
+EXTRA_BOUNDS = "also: pre-handle listener handling with every int status (symbolic) and None/True/False/300/-1/255; handler next to a multi-line string with markup; option named like a sub-command; aliases equal to other commands' names; a rejected run followed by a good run on one application; every exception kind on ASCII-only output streams at every verbosity."
 BOUNDS = {"quick": "handler result: every int; numeric strings str(n) for every int |n| <= 999; pinned floats/None/bools; exceptions: 9 classes x messages 'E'+c1+fragment+c2+'Z' (c1,c2 in {<,>,/,b,newline,e-acute} or empty, 8 tag fragments) x 4 verbosity switches; 3 listener behaviours",
           "thorough": "messages with up to 3 symbolic characters around the fragment"}
 OUTSIDE = ["BaseExceptions other than KeyboardInterrupt (SystemExit, GeneratorExit)", "messages with more symbolic characters than stated",
